@@ -1,6 +1,11 @@
 package c20
 
 import (
+	"math/rand"
+	"strings"
+	"time"
+	ucfg "github.com/elastic/go-ucfg"
+	"verif/internal/harness"
 	"fmt"
 	"os"
 	"sort"
@@ -41,5 +46,54 @@ func TestGroups(t *testing.T) {
 	}
 	for k, d := range other {
 		fmt.Printf("SIG %s: %s\n", k, d)
+	}
+}
+
+func BenchmarkThorough(b *testing.B) {
+	c := check{}
+	for i := 0; i < b.N; i++ {
+		c.Run(1, "thorough", 5000+i, false)
+	}
+}
+
+func TestStringTiming(t *testing.T) {
+	type st struct {
+		s string
+		d time.Duration
+	}
+	var l []st
+	var total time.Duration
+	tier := "thorough"
+	for idx := 5000; idx < 5100; idx++ {
+		res := harness.NewR(idx)
+		r := rand.New(rand.NewSource(harness.Mix(1, "C20", idx)))
+		w := &world{res: res, r: r, tier: tier, poss: tierPositions(tier), p: "p", q: "q", val: 1, capTop: 1100, capInterior: 1100, sigSeen: map[string]int{}}
+		w.arm(1 << 17)
+		ucfg.VerifSetHook(w.hook)
+		var strs []string
+		n := chunkCases(tier)
+		for i := idx; i < universe(tier); i += n {
+			strs = append(strs, universeString(tier, i))
+		}
+		for i := 0; i < 4; i++ {
+			strs = append(strs, "R:"+randomString(r))
+		}
+		for _, s := range strs {
+			s2 := strings.TrimPrefix(s, "R:")
+			t0 := time.Now()
+			w.runString(s2, settingsFor(s2, tier))
+			d := time.Since(t0)
+			total += d
+			l = append(l, st{s, d})
+		}
+	}
+	sort.Slice(l, func(a, b int) bool { return l[a].d > l[b].d })
+	fmt.Println("total", total, "strings", len(l))
+	var cum time.Duration
+	for i, x := range l {
+		cum += x.d
+		if i < 30 || i%100 == 0 {
+			fmt.Printf("%4d %-14q %v cum %v\n", i, x.s, x.d, cum)
+		}
 	}
 }
